@@ -120,6 +120,13 @@ pub fn scenario(g: &mut G, ctx: &RunCtx) -> RunReport {
     let mut plan = bodyx::gen_plan(g, max);
     plan.rereads = g.below(5) as usize;
     let d = damage_plan(g, plan);
+    if std::env::var("C02_DEBUG").is_ok() {
+        if let Some(at) = d.plan.damage.split("at=").nth(1).and_then(|x| x.split(':').next()).and_then(|x| x.parse::<usize>().ok()) {
+            let lo = at.saturating_sub(24);
+            eprintln!("DEBUG delivered around {}: {:?}", at, String::from_utf8_lossy(&d.delivered[lo..(at + 24).min(d.delivered.len())]));
+            eprintln!("DEBUG original  around {}: {:?}", at, String::from_utf8_lossy(&d.plan.wire.bytes[lo..(at + 24).min(d.plan.wire.bytes.len())]));
+        }
+    }
     let ran = bodyx::run(&d.plan, ctx, false);
     let mut stats = Stats::default();
     stats.absorb(&ran.history);
@@ -171,6 +178,10 @@ pub fn oracle(d: &Damaged, o: &Observed) -> Verdict {
         Damage::Corrupt => r.end == RefEnd::Complete,
     };
     let tag = format!("{:?}:{:?}", plan.framing, d.damage);
+    if plan.via_text_reader && !r.max_output.is_ascii() {
+        // as for the text helper below: decoded text is only comparable with the octets on ASCII
+        return Verdict::Pass;
+    }
     match &plan.read_mode {
         ReadMode::Sizes(..) => {
             let mut handed = 0usize;
@@ -251,11 +262,23 @@ pub fn oracle(d: &Damaged, o: &Observed) -> Verdict {
                     }
                     let good = match (&o.text, &plan.read_mode) {
                         (Some(t), ReadMode::Json | ReadMode::JsonUtf8) => serde_json::from_slice::<serde_json::Value>(&r.max_output).map(|v| serde_json::to_string(&v).unwrap_or_default() == *t).unwrap_or(false),
+                        // the text helpers are only judged on ASCII, where every charset they may pick is the
+                        // identity (framing octets that a corruption turned into data may be obs-text)
+                        (Some(_), ReadMode::Text) if !r.max_output.is_ascii() => true,
                         (Some(t), _) => *t == String::from_utf8_lossy(&r.max_output),
                         (None, _) => o.output == r.max_output,
                     };
                     if !good {
-                        return violation(format!("output-mismatch:{}", tag), format!("{} returned Ok with {} bytes, reference has {}", c.what, o.output.len(), r.max_output.len()));
+                        let got: &[u8] = o.text.as_ref().map(|t| t.as_bytes()).unwrap_or(&o.output);
+                        let at = got.iter().zip(r.max_output.iter()).position(|(a, b)| a != b).unwrap_or(got.len().min(r.max_output.len()));
+                        if std::env::var("C02_DEBUG").is_ok() {
+                            eprintln!("DEBUG got {:?}", String::from_utf8_lossy(&got[at.saturating_sub(40)..(at + 40).min(got.len())]));
+                            eprintln!("DEBUG ref {:?}", String::from_utf8_lossy(&r.max_output[at.saturating_sub(40)..(at + 40).min(r.max_output.len())]));
+                        }
+                        return violation(
+                            format!("output-mismatch:{}", tag),
+                            format!("{} returned Ok with {} bytes, reference has {}; first difference at {} (got {:?}, reference {:?})", c.what, got.len(), r.max_output.len(), at, short(&got[at.min(got.len())..(at + 12).min(got.len())]), short(&r.max_output[at.min(r.max_output.len())..(at + 12).min(r.max_output.len())])),
+                        );
                     }
                     Verdict::Pass
                 }
